@@ -498,11 +498,24 @@ where
 
         self.pool_size = new_pool_size;
         if is_growing {
-            for _ in 0..new_pool_size {
-                if self.queue.peek().is_none() {
-                    break;
+            if self.router.is_factory_queueing() {
+                for _ in 0..new_pool_size {
+                    if self.queue.peek().is_none() {
+                        break;
+                    }
+                    self.try_route_next_active_job(None)?;
                 }
-                self.try_route_next_active_job(None)?;
+            } else {
+                // Worker-queued routing only backlogs in the factory while no worker can take a
+                // job (empty pool). Once workers exist the whole backlog moves to their queues:
+                // later dispatches are routed straight to the workers and must not overtake it.
+                while self.queue.peek().is_some() {
+                    let backlog = self.queue.len();
+                    self.try_route_next_active_job(None)?;
+                    if self.queue.len() == backlog {
+                        break;
+                    }
+                }
             }
         }
         Ok(())
